@@ -33,7 +33,7 @@ InDomUn(op, a, p) ==
        [] op = "exp" -> FLt(FAbs(a.re), FOfInt(20))
        [] op = "log" -> FLt(Small, a.re)
        [] op = "ncdf" -> FLt(FAbs(a.re), FOfRat(17, 2))
-       [] op = "incdf" -> FLt(Tiny, a.re) /\ FLt(a.re, FSub(FOne, Tiny))
+       [] op = "incdf" -> FLt(FZ, a.re) /\ FLt(a.re, FOne)                      \* the whole open interval: the quantile is smooth up to both ends
        [] op = "abs" -> FLt(Tiny, FAbs(a.re))
        [] OTHER -> TRUE
 InDomBin(op, a, b) ==
@@ -101,7 +101,7 @@ CmpVerdict(op, a, b, st) ==
   LET ra == Rank(a.k) rb == Rank(b.k) IN
   IF ra > 0 /\ rb > 0 /\ ra # rb THEN (IF Wrapped(a) /\ Wrapped(b) THEN V(st.o = "panic") ELSE "skip")
   ELSE IF st.o = "skip" THEN "skip"
-  ELSE IF ~(Tame(a) /\ Tame(b)) THEN "skip"
+  ELSE IF ~(CmpTame(a) /\ CmpTame(b)) THEN "skip"
   ELSE V(st.o = "ok" /\ st.res.k = "B" /\ st.res.b = CmpWant(op, a, b))
 
 \* ------------------------------------------------------------------ sums and identities
